@@ -79,8 +79,97 @@ func paramsValid(m *mParams, depth, batch int) (valid bool, why string) {
 // valid, invalid by one mutation, or of the wrong shape. Witness-level start
 // indices >= 2^32 are folded to their low 32 bits (parameters carry uint32).
 func genParamsFor(t *rapid.T, mode string, depth, batch int) (string, *mParams) {
-	kind := pick(t, "pkind", "valid", "valid", "valid-unreduced-hash", "invalid-batch", "invalid-batch", "invalid-batch", "wrong-hash", "wrong-shape", "wrong-shape")
+	kind := pick(t, "pkind", "valid", "valid", "valid-unreduced-hash", "invalid-batch", "invalid-batch", "invalid-batch", "focus-invalid", "focus-invalid", "wrong-hash", "wrong-shape", "wrong-shape")
+	return genParamsOfKind(t, mode, depth, batch, kind)
+}
+
+// genFocusInvalid builds the parameter sets that violate exactly ONE check of the circuit while everything else
+// (later roots, the packing hash of the presented values) is consistent with them: the classes that tell a circuit
+// which makes the check from one that does not, too rare under the slot-by-slot generators alone.
+func genFocusInvalid(t *rapid.T, mode string, depth, batch int) (string, *mParams) {
+	m := genValidParams(t, mode, depth, batch)
+	if mode == "insertion" {
+		switch pick(t, "focus_ins", "occupied-leaf", "start-aliased") {
+		case "occupied-leaf":
+			h := genHistory(t, depth, 8)
+			if len(h.Tree.Occupied()) == 0 {
+				h.Tree.Set(rapid.Uint64Range(0, maxLeaf(depth)).Draw(t, "focus_seed_leaf"), big.NewInt(5))
+			}
+			occ := h.Tree.Occupied()
+			o := occ[rapid.IntRange(0, len(occ)-1).Draw(t, "focus_occ")]
+			slot := uint64(rapid.IntRange(0, batch-1).Draw(t, "focus_slot"))
+			s := uint64(0)
+			if slot <= o {
+				s = o - slot
+			}
+			if s+uint64(batch)-1 > maxLeaf(depth) {
+				return "focus:none", m
+			}
+			ids := make([]*big.Int, batch)
+			for i := range ids {
+				ids[i] = genCommitment(t, "fid", ids[:i])
+			}
+			w := forceInsertion(h.Tree.Clone(), s, ids)
+			m.StartIndex, m.PreRoot, m.PostRoot, m.IdComms, m.MerkleProofs = low32(w.Start), w.Pre, w.Post, w.Ids, w.Paths
+			m.InputHash = ref.Mod(ref.HashInsertion(m.StartIndex, m.PreRoot, m.PostRoot, m.IdComms))
+			return "focus:occupied-leaf-consistent", m
+		default:
+			// the same batch presented with a multiple of 2^depth added to the start index (fits uint32 while depth < 32)
+			if depth >= 32 {
+				return "focus:none", m
+			}
+			room := (uint64(1)<<32 - 1 - uint64(m.StartIndex)) >> uint(depth)
+			if room == 0 {
+				return "focus:none", m
+			}
+			k := rapid.Uint64Range(1, room).Draw(t, "focus_k")
+			if rapid.Bool().Draw(t, "focus_k1") {
+				k = 1
+			}
+			m.StartIndex += uint32(k << uint(depth))
+			m.InputHash = ref.Mod(ref.HashInsertion(m.StartIndex, m.PreRoot, m.PostRoot, m.IdComms))
+			return "focus:start-aliased-consistent", m
+		}
+	}
+	switch pick(t, "focus_del", "index-aliased", "index-aliased", "wrong-item") {
+	case "wrong-item":
+		var realSlots []int
+		for i, ix := range m.DeletionIndices {
+			if uint64(ix) < uint64(1)<<uint(depth) {
+				realSlots = append(realSlots, i)
+			}
+		}
+		if len(realSlots) == 0 {
+			return "focus:none", m
+		}
+		i := realSlots[rapid.IntRange(0, len(realSlots)-1).Draw(t, "focus_del_slot")]
+		m.IdComms[i] = addMod(m.IdComms[i], pick(t, "focus_del_delta", int64(1), -1, 3))
+		return "focus:wrong-item-only", m
+	default:
+		// a valid batch with a multiple of 2^(depth+1) added to one index (real or padding slot): the low depth+1 bits
+		// still address the same slot / still carry the skip bit
+		if depth+1 >= 32 {
+			return "focus:none", m
+		}
+		i := rapid.IntRange(0, batch-1).Draw(t, "focus_idx_slot")
+		room := (uint64(1)<<32 - 1 - uint64(m.DeletionIndices[i])) >> uint(depth+1)
+		if room == 0 {
+			return "focus:none", m
+		}
+		k := rapid.Uint64Range(1, room).Draw(t, "focus_k")
+		if rapid.Bool().Draw(t, "focus_k1") {
+			k = 1
+		}
+		m.DeletionIndices[i] += uint32(k << uint(depth+1))
+		m.InputHash = ref.Mod(ref.HashDeletion(m.DeletionIndices, m.PreRoot, m.PostRoot))
+		return "focus:index-aliased-consistent", m
+	}
+}
+
+func genParamsOfKind(t *rapid.T, mode string, depth, batch int, kind string) (string, *mParams) {
 	switch kind {
+	case "focus-invalid":
+		return genFocusInvalid(t, mode, depth, batch)
 	case "valid", "valid-unreduced-hash", "wrong-hash":
 		m := genValidParams(t, mode, depth, batch)
 		if kind == "valid-unreduced-hash" {
@@ -324,6 +413,7 @@ func c07Dims(mode string) [][2]int {
 
 func init() {
 	registerReplay("TestC07_Shapes", runC07)
+	registerReplay("TestC07_Invalid", runC07)
 	registerReplay("TestC07_Insertion", runC07)
 	registerReplay("TestC07_Deletion", runC07)
 }
@@ -369,4 +459,23 @@ func TestC07_Shapes(t *testing.T) {
 	d := dims[(Shard()/2)%len(dims) : (Shard()/2)%len(dims)+1]
 	warmSystems(t, d[0][0], d[0][1])
 	RunRapid(t, Check[c07Case]{Prop: "C07", Test: "TestC07_Shapes", Gen: genC07Shapes(mode, d), Run: runC07})
+}
+
+// TestC07_Invalid: only parameter sets that the prover must refuse (invalid by one batch mutation, the single-check
+// focus classes, a wrong hash): refusals cost a failed solve, not a proof, so many more of them fit the budget.
+func genC07Invalid(mode string, dims [][2]int) func(t *rapid.T) c07Case {
+	return func(t *rapid.T) c07Case {
+		d := pick(t, "dims", dims...)
+		kind := pick(t, "pkind", "invalid-batch", "invalid-batch", "focus-invalid", "focus-invalid", "wrong-hash")
+		k, m := genParamsOfKind(t, mode, d[0], d[1], kind)
+		return c07Case{Mode: mode, Depth: d[0], Batch: d[1], Kind: k, Params: m}
+	}
+}
+
+func TestC07_Invalid(t *testing.T) {
+	mode := []string{"insertion", "deletion"}[Shard()%2]
+	dims := c07Dims(mode)
+	d := dims[(Shard()/2)%len(dims) : (Shard()/2)%len(dims)+1]
+	warmSystems(t, d[0][0], d[0][1])
+	RunRapid(t, Check[c07Case]{Prop: "C07", Test: "TestC07_Invalid", Gen: genC07Invalid(mode, d), Run: runC07})
 }
